@@ -20,6 +20,7 @@ there is no `_partial` theorem in this file.
 -/
 import Restful.Lemmas.Response
 import Restful.Lemmas.StateShape
+import Restful.Lemmas.Translated
 namespace Restful
 namespace Props
 open Resp Spec
@@ -168,6 +169,10 @@ example :
 -- also: Restful.StateShape.globals_shape
 -- also: Restful.StateShape.consts_shape
 -- also: Restful.StateShape.response_shape
+
+/-! The regenerated tie (tools/gotrans → Gen/Translated.lean, Lemmas/Translated.lean): the decision
+    functions this property's model contains ARE the ones translated from the Go sources on this run. -/
+-- also: Restful.Tie.response_status_code
 
 end Props
 end Restful
